@@ -279,7 +279,7 @@ func enumerate(thorough bool, add0 func(s scen)) {
 		full := append(append([]opKind(nil), ops...), opWc, opWs)
 		for at := 0; at <= len(full); at++ {
 			for _, to := range []side{cli, srv} {
-				for _, kind := range []injKind{injNext, injNext2, injOld} {
+				for _, kind := range []injKind{injNext, injNext2, injOld, injLegacy} {
 					if kind == injOld && staticAuth(full[:at], to) == 0 {
 						continue
 					}
